@@ -87,6 +87,15 @@ def gen_trace(recipe):
       if rng.random() < 0.3:
         pairs = np.vstack([pairs, np.array([[X[0], X[0]]])])
         lab = np.concatenate([lab, [int(rng.choice([-1, 1]))]])
+      if rng.random() < 0.5:
+        # NEAR ties: a pair a few 1e-7 (relative) longer than another one, with the opposite label - distinct distances,
+        # which predict separates and an optimal threshold may have to
+        k = int(rng.integers(len(pairs)))
+        a, b = pairs[k]
+        stretched = np.array([[a, a + (b - a) * (1.0 + 2.0 ** -21)]])
+        if not np.array_equal(stretched[0, 1], b):
+          pairs = np.vstack([pairs, stretched])
+          lab = np.concatenate([lab, [-lab[k]]])
       lab = np.where(rng.random(len(lab)) < 0.25, -lab, lab)   # label noise
       if len(set(lab.tolist())) < 2:
         lab[0], lab[1] = 1, -1
